@@ -13,6 +13,8 @@ def hcfg(n):
 
 HARNESSES = [
     {"name": "handle2", "fn": S + "VerifC06Handle2", "bounds": "record of <= 2 exchanges; scan and uniqueness loops unwound 3x with unwinding obligations", "replay_overlay": RO, "cfg": hcfg(2)},
+    {"name": "handlefull", "fn": S + "VerifC06HandleFull", "bounds": "record at capacity (8 exchanges, arbitrary stamps), receive stamp colliding with none of them: one pass of the uniqueness loop (unwinding obligation), scan loop unwound 9x", "replay_overlay": RO,
+     "cfg": {"prune_skip": [S + "handleRequest"], "unwind": {S + "handleRequest#4": 1, S + "handleRequest#7": 9, "container/heap.up": 3, "container/heap.down": 3}}},
     {"name": "update2", "fn": S + "VerifC06Update2", "bounds": "record of <= 2 exchanges, arbitrary rx/tx instants", "replay_overlay": RO, "cfg": hcfg(2)},
     {"name": "update4", "fn": S + "VerifC06Update4", "bounds": "record of <= 4 exchanges", "replay_overlay": RO, "thorough_only": True, "cfg": hcfg(4)},
     {"name": "update8", "fn": S + "VerifC06Update8", "bounds": "record of <= 8 exchanges", "replay_overlay": RO, "thorough_only": True, "cfg": hcfg(8)},
